@@ -20,7 +20,7 @@ KINDS = ("boxcar", "gaussian", "lorentzian")
 
 
 def REQUIRED(tier):
-    return ["responses_compared", "argmax_checks", "invariance_checks", "boxcar_recoveries", "kind:boxcar", "kind:gaussian", "kind:lorentzian", "len:not_fft_good", "pulse:wraps_around_end", "kernel_direct_unsorted_bank", "long_series", "regime:uncentred_data_with_baseline", "invariance:offset_with_centring_off", "construction_after_refused_one", "regime:baseline_1e5_times_noise", "input_buffer_reused_after_construction", "bank_with_template_as_wide_as_data", "fullwidth_template_present", "held_filter_checks", "plot_then_read_checks"]
+    return ["responses_compared", "argmax_checks", "invariance_checks", "boxcar_recoveries", "kind:boxcar", "kind:gaussian", "kind:lorentzian", "len:not_fft_good", "pulse:wraps_around_end", "kernel_direct_unsorted_bank", "long_series", "regime:uncentred_data_with_baseline", "invariance:offset_with_centring_off", "construction_after_refused_one", "regime:baseline_1e5_times_noise", "input_buffer_reused_after_construction", "bank_with_template_as_wide_as_data", "fullwidth_template_present", "held_filter_checks", "plot_then_read_checks", "regime:series_over_2^17_bins"]
 
 
 def cases(tier, seed):
@@ -31,6 +31,8 @@ def cases(tier, seed):
         yield {"kind": "boxcar", "seed": int(seed) * 100003 + i}
     for i in range(max(24, n // 10)):
         yield {"kind": "long", "seed": int(seed) * 100003 + i}
+    for i, tk in enumerate(("gaussian", "lorentzian", "boxcar")):
+        yield {"kind": "long", "seed": int(seed) * 100003 + 4000 + 4 * i, "n": (1 << 17) + 101 * (i + 1), "tkind": tk}
     for i in range(12 if tier == "quick" else 120):
         yield {"kind": "fullwidth", "seed": int(seed) * 100003 + i}
 
@@ -289,6 +291,9 @@ def _long(case, ctx, rng):
 
     n = int(rng.choice([4096, 5000, 3001, 8192]))
     kind = str(rng.choice(KINDS))
+    if case.get("n"):       # a series of more than 2^17 bins (block-wise convolution paths) with a template whose reference bin is not 0
+        n, kind = int(case["n"]), str(case["tkind"])
+        ctx.count("regime:series_over_2^17_bins")
     nbmax = int(rng.choice([16, 32, 64]))
     spacing = float(rng.choice([1.5, 2.0]))
     loc_m = str(rng.choice(["median", "norm", "mean"]))
